@@ -199,6 +199,11 @@ def fixed_programs():
         # the experiment's own name as the only field, inside a tuple
         prog(M.cmp_(L("1"), "in", T([I("exp"), L("2")]))),
         prog(M.cmp_(I("y"), "in", I("x")), splitters=["y"]),
+        # fields named like parameters an API around the experiment might have
+        prog(M.cmp_(I("fields"), "==", L("1")), splitters=["fields"]),
+        prog(M.and_(M.cmp_(I("source_code"), "==", L("1")), M.cmp_(I("args"), "!=", I("text"))), splitters=["name", "value"]),
+        prog(M.cmp_(I("population"), "in", T([I("weights"), I("input_id")])), splitters=["cum_weights", "key"]),
+        prog(M.cmp_(I("method"), "==", I("n")), splitters=["p", "confidence"]),
         # negated ordering comparisons (not the same question as the complementary operator when a NaN comes in)
         prog(M.not_(M.cmp_(I("y"), ">", L("4")))),
         prog(M.and_(M.not_(M.cmp_(I("y"), "<=", M.lit_float("0.5"))), M.not_(M.cmp_(L("3"), "<", I("y")))), splitters=["uid"]),
